@@ -381,7 +381,10 @@ func CompileList(list List) (f Object) {
 						},
 					}
 				}
-				pkg.funcs[name] = &FuncInfo{Name: name, Create: fc, Pkg: pkg, Export: true}
+				// The placeholder is reached through pkg.lambdas only. It is not
+				// a definition so it is not stored in the function table where
+				// fboundp, find-symbol and the users of the package would see
+				// it, as exported, before and after the function is defined.
 				f = fc(list[1:])
 			}
 			if funk, ok := f.(Funky); ok {
